@@ -196,6 +196,8 @@ def _mk_calc(U, clsname, chain=(), **user_kw):
         if name == "StaticCalculator":
             reached.setdefault(id(obj), {}).update(kw)
             obj.Efermi = kw.get("Efermi")
+            # contract of StaticCalculator.__init__ (C13's hole_like units): the stored factor carries the hole-like sign of a Fermi-sea calculator
+            obj.constant_factor = kw.get("constant_factor", 1.0) * (-1 if (kw.get("hole_like") and obj.fder == 0) else 1)
             return
         if not init_of(name):
             return construct(bases_of(name)[0], obj, kw)
@@ -280,7 +282,11 @@ def _pairs(U):
             for cls_ in (sea, surf):
                 mu, kwu, made_u, _ = _mk_calc(U, cls_, constant_factor=3.25)
                 ok = ok and kwu.get("constant_factor") == 3.25 and all(v._kw.get("constant_factor") == 3.25 for (i, n_), v in made_u.items() if i == id(mu))
-            U.ensure("%s: sea = %s (fder 0%s), surface = %s (fder %d), constant factors in the ratio %g, the surface product holds the factor the sea formula differentiates; a user-supplied factor reaches every calculator involved%s"
+            # hole-like Fermi sea: every calculator involved receives the user-level factor and the flag, and flips its own sign once
+            mh, kwh, made_h, _ = _mk_calc(U, sea, hole_like=True)
+            ok = ok and kwh.get("hole_like") is True and kwh.get("constant_factor", 1.0) == cs and mh.constant_factor == -cs \
+                and all(v._kw.get("constant_factor") == cs and v._kw.get("hole_like") is True and v.constant_factor == -cs for (i, n_), v in made_h.items() if i == id(mh))
+            U.ensure("%s: sea = %s (fder 0%s), surface = %s (fder %d), constant factors in the ratio %g, the surface product holds the factor the sea formula differentiates; a user-supplied factor and the hole_like flag reach every calculator involved, each flipping its sign once%s"
                      % (name, fsea, ", derivative index moved first" if moved else "", fsurf, fder, ratio, "; minus 2 E_F x the Berry dipole of the same kind and factor" if name == "GME_orb" else ""), bool(ok))
     U.run(body, check_feasible=False)
     U.external("EnergyResult arithmetic (-, scalar *, mul_array along the Fermi axis): element-wise (C16)")
@@ -385,3 +391,10 @@ def _real_pairs(rng, n):
 
 Unit("C28", "sea vs surface calculators on a grid with Fermi-Dirac smoothing [installed code]", concrete=_real_pairs,
      bounded_desc="random smooth 3-band model, k_B T = 0.12 x band width, 7 Fermi levels inside the band range, grid 8^3 (quick, tolerance 45%) / 12^3 (thorough, 25%): Ohmic, Berry dipole, GME spin, GME orbital")
+
+
+
+# sea and surface formulas of a pair must carry consistent declared behaviour under time reversal / inversion (otherwise a symmetrised run keeps
+# one form and projects the other to zero): the parity tables and the covariant() wiring that give the Der formulas theirs -- C08's unit, here as well
+from contracts.C08 import _tables_unit as _c08_tables      # noqa: E402
+_c08_tables(prop="C28")
